@@ -425,15 +425,15 @@ fn random_history(kind: Kind, rng: &mut Rng, pool: &[u64]) -> History {
     let n = rng.range(12, 40);
     for _ in 0..n {
         // the clock drifts towards and across the window
-        now += match rng.below(12) {
+        now = now.saturating_add(match rng.below(12) {
             0 | 1 => 0,
             2 | 3 => 1,
-            4 => cs.saturating_sub(now + 1),
+            4 => cs.saturating_sub(now.saturating_add(1)),
             5 => cs.saturating_sub(now),
-            6 => ce.saturating_sub(now + 1),
+            6 => ce.saturating_sub(now.saturating_add(1)),
             7 => ce.saturating_sub(now),
             _ => rng.below(5),
-        };
+        });
         let near = |rng: &mut Rng, xs: &[u64]| -> u64 {
             if rng.chance(1, 12) {
                 return *rng.pick(pool);
@@ -453,8 +453,8 @@ fn random_history(kind: Kind, rng: &mut Rng, pool: &[u64]) -> History {
             roll = rng.range(3, 9); // a started whitelist refuses every start update: try it less often
         }
         let op = match roll {
-            0..=2 if rng.chance(1, 2) && now + 1 < ce => Some(Op::UpdStart(rng.range(now + 1, ce))),
-            3..=5 if rng.chance(1, 2) => Some(Op::UpdEnd(if now >= cs { rng.range(cs, ce) } else { cs + rng.below(70) })),
+            0..=2 if rng.chance(1, 2) && now < ce.saturating_sub(1) => Some(Op::UpdStart(rng.range(now + 1, ce))),
+            3..=5 if rng.chance(1, 2) => Some(Op::UpdEnd(if now >= cs { rng.range(cs, ce) } else { cs.saturating_add(rng.below(70)) })),
             0..=2 => Some(Op::UpdStart(near(rng, &[cs, ce, now, GENESIS]))),
             3..=5 => Some(Op::UpdEnd(near(rng, &[cs, ce, now]))),
             6 => Some(Op::Remove(vec![*rng.pick(&[100u64, 101, 102, 103])])),
